@@ -654,6 +654,15 @@ func (f *fsm) openSent() (fsmState, error) {
 					f.keepAliveInterval = f.holdTime / 3
 					f.keepAliveTimer = time.NewTimer(f.keepAliveInterval)
 					f.drainAndResetHoldTimer()
+				} else {
+					// https://tools.ietf.org/html/rfc4271#section-4.2
+					// A negotiated Hold Time of zero disables the hold and
+					// keepalive timers. Keep both timers non-nil and stopped so
+					// they can still be selected on.
+					f.keepAliveInterval = 0
+					f.keepAliveTimer = time.NewTimer(longHoldTime)
+					f.keepAliveTimer.Stop()
+					f.holdTimer.Stop()
 				}
 
 				return openConfirmState, nil
@@ -734,7 +743,9 @@ func (f *fsm) openConfirm() (fsmState, error) {
 							- restarts the HoldTimer and
 							- changes its state to Established.
 					*/
-					f.drainAndResetHoldTimer()
+					if f.holdTime != 0 {
+						f.drainAndResetHoldTimer()
+					}
 					return establishedState, nil
 				case *Notification:
 					return idleState, newNotificationError(m, false)
